@@ -256,6 +256,19 @@ def judge_series(name, series, case_extra=None):
     return vs
 
 
+def _arm_cpu_limit(seconds):
+    """Kernel-enforced CPU-time budget for the next measurement: the process is killed by SIGXCPU when it has used
+    `seconds` more CPU seconds than now.  CPU time, not wall time, so a loaded machine cannot trigger it; a regex
+    that hangs is stopped after a bounded amount of work and the parent confirms the marked case alone."""
+    ru = resource.getrusage(resource.RUSAGE_SELF)
+    used = ru.ru_utime + ru.ru_stime
+    soft, hard = resource.getrlimit(resource.RLIMIT_CPU)
+    new = int(used) + seconds + 1
+    if hard != resource.RLIM_INFINITY:
+        new = min(new, hard)
+    resource.setrlimit(resource.RLIMIT_CPU, (new, hard))
+
+
 def lex_time(text):
     S = sut.load()
     errs = []
@@ -354,6 +367,7 @@ def run_shard(spec):
             for n in [16, 32, 64, 128, 256, 512, 1024, 2048, 4096, 8192, 65536]:
                 text = fam(n)
                 mark({"lex_family": name, "n": n})
+                _arm_cpu_limit(60)
                 t = lex_time(text)
                 row.append((n, len(text), round(t * 1000, 2)))
                 cnt["measurements"] += 1
@@ -377,7 +391,8 @@ def run_shard(spec):
     return res
 
 
-_ALONE_CODE = ("import sys, json, time; sys.setrecursionlimit(20000)\n"
+_ALONE_CODE = ("import sys, json, time, resource; sys.setrecursionlimit(20000)\n"
+               "resource.setrlimit(resource.RLIMIT_CPU, (50, resource.getrlimit(resource.RLIMIT_CPU)[1]))\n"
                "from vf.checks import c16\n"
                "m = json.loads(sys.argv[1])\n"
                "if 'lex_family' in m:\n"
@@ -405,8 +420,10 @@ def _alone_user_cpu(m, wall_timeout=120):
 
 def on_shard_failure(spec, note):
     """A shard that timed out: re-run the marked case alone and decide on CPU time (never on wall time)."""
-    if not note or note.get("why") != "timeout" or not note.get("marker"):
+    if not note or not note.get("marker"):
         return None
+    if not (note.get("why") == "timeout" or "exit -24" in str(note.get("why")) or "exit -9" in str(note.get("why"))):
+        return None   # only hangs / CPU-budget kills are re-examined here
     try:
         m = json.loads(note["marker"])
     except Exception:  # noqa: BLE001
@@ -414,7 +431,7 @@ def on_shard_failure(spec, note):
     cpu = _alone_user_cpu(m, wall_timeout=240)
     timed_out = False
     res = {"evaluations": 1, "nontrivial_distinct": 1, "violations": [], "samples": [], "counters": {"measurements": 1}, "inconclusive": []}
-    if cpu > 45.0:  # decided on the child's user CPU time only (quiet worst case: 1.5 s); a wall-clock timeout alone is inconclusive
+    if cpu > 40.0:  # the marked case alone used > 40 s of user CPU (quiet worst case: 1.5 s); wall-clock time never decides
         size = m.get("n") or m.get("k")
         res["violations"].append({"kind": "short-input-takes-seconds" + ("-in-the-lexer" if "lex_family" in m else ""),
                                   "sig": str(m.get("lex_family") or m.get("family")), "case": m,
